@@ -4,10 +4,18 @@ import "github.com/dave/jennifer/simhook"
 
 // PermRec is one map-iteration-order decision actually taken.
 type PermRec struct {
-	Call int   `json:"call"` // ordinal among MapKeys calls with n>=2 in this execution
-	Site int   `json:"site"`
-	N    int   `json:"n"`
-	P    []int `json:"p"`
+	// a decision is addressed by content: H = hash of the map's keys in canonical order,
+	// Occ = how many ranges over keys with that hash this execution has seen so far
+	H    uint64 `json:"h"`
+	Occ  int    `json:"occ"`
+	Site int    `json:"site"` // informational (site numbers differ between builds)
+	N    int    `json:"n"`
+	P    []int  `json:"p"`
+}
+
+type permKey struct {
+	h   uint64
+	occ int
 }
 
 // fileSim is the simulation installed for single-task engines: it owns map
@@ -16,7 +24,8 @@ type PermRec struct {
 type fileSim struct {
 	Mode   string // "identity" | "reverse" | "shuffle" | "replay"
 	rng    *RNG
-	replay map[int][]int
+	replay map[permKey][]int
+	occ    map[uint64]int
 	calls  int
 	Log    []PermRec
 	Steps  uint64
@@ -37,9 +46,9 @@ func newFileSim(mode string, seed uint64) *fileSim {
 }
 
 func replaySim(perms []PermRec, coins []int) *fileSim {
-	s := &fileSim{Mode: "replay", replay: map[int][]int{}, replayCoins: map[int]bool{}}
+	s := &fileSim{Mode: "replay", replay: map[permKey][]int{}, replayCoins: map[int]bool{}}
 	for _, p := range perms {
-		s.replay[p.Call] = p.P
+		s.replay[permKey{p.H, p.Occ}] = p.P
 	}
 	for _, c := range coins {
 		s.replayCoins[c] = true
@@ -47,8 +56,13 @@ func replaySim(perms []PermRec, coins []int) *fileSim {
 	return s
 }
 
-func (s *fileSim) Perm(site, n int) []int {
+func (s *fileSim) Perm(site, n int, h uint64) []int {
 	s.calls++
+	if s.occ == nil {
+		s.occ = map[uint64]int{}
+	}
+	s.occ[h]++
+	occ := s.occ[h]
 	var p []int
 	switch s.Mode {
 	case "identity":
@@ -59,15 +73,16 @@ func (s *fileSim) Perm(site, n int) []int {
 			p[i] = n - 1 - i
 		}
 	case "shuffle":
-		p = s.rng.Perm(n)
+		// drawn from a stream of its own, seeded by (run seed, content, occurrence)
+		p = NewRNG(Mix(s.seed, h, uint64(occ))).Perm(n)
 	case "replay":
-		p = s.replay[s.calls]
+		p = s.replay[permKey{h, occ}]
 		if len(p) != n {
-			return nil // exhausted or shape changed: neutral decision
+			return nil // not recorded or shape changed: neutral decision
 		}
 	}
 	if !isIdentityPerm(p) {
-		s.Log = append(s.Log, PermRec{Call: s.calls, Site: site, N: n, P: p})
+		s.Log = append(s.Log, PermRec{H: h, Occ: occ, Site: site, N: n, P: p})
 	}
 	return p
 }
